@@ -65,7 +65,7 @@ K_PAL = [2., 0.5, 4., 0.25, 10., 0.1, None]
 PHASES = ['l', 'g', 's', 'L']
 RTOL = 1e-9
 T_TOL = 1e-6           # Mixture.T_tol
-EXPLORE = ['xread', 'detached', 'mproxy_ctor', 'mproxy_view']
+EXPLORE = ['xread', 'detached', 'mproxy_ctor', 'mproxy_view', 'datacache']
 
 _PK = {}
 _NAMES = {}
@@ -130,10 +130,30 @@ class Ph:
         return Ph(self.val)
 
 
+class DC:
+    """The indexer's _data_cache dict (holds the mass / volume views) and the streams that hold this very dict."""
+    def __init__(self, owner):
+        self.owners = [owner]
+
+    def hazard(self):
+        """Two holders of the dict look at different flow containers: the cached mass view belongs to one of them."""
+        flows = []
+        for o in self.owners:
+            if not any(f is o.flow for f in flows): flows.append(o.flow)
+        return len(flows) > 1
+
+
+def new_dc(h):
+    if getattr(h, 'dc', None) is not None:
+        h.dc.owners = [o for o in h.dc.owners if o is not h]
+    h.dc = DC(h)
+
+
 class Handle:
     def __init__(self, name, kind, pkg, flow, tc, ph, phases, real, has_eq):
         self.name = name; self.kind = kind; self.pkg = pkg
         self.flow = flow; self.tc = tc; self.ph = ph; self.phases = phases
+        self.dc = None; new_dc(self)
         self.real = real
         self.has_eq = has_eq          # the real object has an `equations` attribute
         self.fetched = set()          # phases whose view object sits in real._streams
@@ -165,6 +185,7 @@ class World:
         self.trace = []
         self.muts = []            # mutations since the last read (for messages)
         self.explore = []
+        self.dc_tainted = False   # a mass-based write went through a _data_cache serving two flow containers (finding F5)
         self.xpkg_mode = {}       # receiver package -> 'overlap' | 'setitem' (see xpkg_allowed)
 
 
@@ -282,7 +303,7 @@ def region_of(W, path):
     xread = int(m is not None and m not in W.consistent)
     det = int(k == 'v' and path[2] in h.detached)
     kind = 'S' if k in ('v', 'pv') else h.kind
-    return f'path={k},kind={kind},parent={h.kind},xread={xread},det={det}'
+    return f'path={k},kind={kind},parent={h.kind},xread={xread},det={det},dc={int(W.dc_tainted)}'
 
 
 def get_obj(W, ctx, path):
@@ -346,6 +367,17 @@ def target(W, path):
     if k == 'v': return h, [h.vec(path[2])]
     if h.kind == 'S': return h, [h.vec()]
     return h, [h.vec(p) for p in h.phases]
+
+
+def member_read(W, m):
+    """Bookkeeping for a read of the memo through member m of a's cache-sharing group (finding F1).
+    `consistent` = members whose memo key is known to describe what the shared dict holds."""
+    if m is None: return
+    if m in W.consistent:
+        if W.mut_since_read: W.consistent = {m}
+    else:
+        W.consistent = set()
+    W.mut_since_read = False
 
 
 def mutated(W, what):
@@ -481,14 +513,7 @@ def check_read(W, ctx, path, prop):
     W.lastread[key] = (W.version, list(path))
     ctx.cell('read:path=' + path[0])
     if got[0] == 'exc': ctx.cell('read:exc-both' if ok else 'read:exc')
-    m = member(W, path)
-    if m is not None:
-        # bookkeeping of the cache-sharing group of `a` (see notes/C14.md, finding F1)
-        if m in W.consistent:
-            if W.mut_since_read: W.consistent = {m}
-        else:
-            W.consistent = set()
-        W.mut_since_read = False
+    member_read(W, member(W, path))
     if ok:
         if rel is not None: ctx.metric_max('read:rel_err', rel)
         W.muts = []
@@ -563,13 +588,7 @@ def op_mixH(ch, W, ctx):
     if not F1 or not F2 or ph in ('s',):
         ctx.cell('avoided:mixH-empty-or-solid'); return
     for p in (p1, p2):
-        m = member(W, p) if p else None
-        if m is not None:
-            if m in W.consistent:
-                if W.mut_since_read: W.consistent = {m}
-            else:
-                W.consistent = set()
-            W.mut_since_read = False
+        if p: member_read(W, member(W, p))
     t = tmo.Stream(None, thermo=_PK[s1['pkg']])
     ctx.call('read.mixH', t.mix_from, [o1, o2], energy_balance=True, region=region)
     rows = dict(s1['rows'][ph])
@@ -598,9 +617,16 @@ def op_w_flow(ch, W, ctx):
     region = f'path={path[0]},kind={"M" if multi else "S"}'
     if not multi:
         vec = rows[0]
-        how = ch.choice('w.how', ['mol_item', 'mol_slice', 'mol_all', 'mol_setter', 'mass_item', 'mass_slice', 'imol_name',
-                                  'imol_names', 'imass_name', 'set_flow'])
+        hows = ['mol_item', 'mol_slice', 'mol_all', 'mol_setter', 'mass_item', 'mass_slice', 'imol_name', 'imol_names',
+                'imass_name', 'set_flow']
+        if path[0] != 'v' and h.dc.hazard() and 'datacache' in W.explore:
+            hows = ['mass_item', 'imass_name', 'mass_slice', 'set_flow'] * 2 + hows
+        how = ch.choice('w.how', hows)
         if path[0] == 'v' and how == 'mol_setter': how = 'mol_all'
+        if how in ('mass_item', 'mass_slice', 'imass_name', 'set_flow') and path[0] != 'v' and h.dc.hazard():
+            if 'datacache' not in W.explore:
+                ctx.cell('avoided:mass-write-through-shared-data-cache'); return
+            W.dc_tainted = True
         W.trace.append(f'w_flow {pkey(path)} {how}')
         if how in ('mol_item', 'mass_item'):
             i = ch.int('w.i', 0, n - 1); v = draw_v(ch)
@@ -638,9 +664,15 @@ def op_w_flow(ch, W, ctx):
             ctx.call('op.' + how, obj.imol.__setitem__, tuple(sub), np.array(vals, float), region=region)
             for nme, v in zip(sub, vals): vec[nme] = float(v)
     else:
-        how = ch.choice('w.how', ['imol_pn', 'imol_pnames', 'imass_pn', 'imol_prow'])
+        hows = ['imol_pn', 'imol_pnames', 'imass_pn', 'imol_prow']
+        if h.dc.hazard() and 'datacache' in W.explore: hows = ['imass_pn'] * 3 + hows
+        how = ch.choice('w.how', hows)
         ph = ch.choice('w.phase', list(h.phases))
         vec = h.vec(ph)
+        if how == 'imass_pn' and h.dc.hazard():
+            if 'datacache' not in W.explore:
+                ctx.cell('avoided:mass-write-through-shared-data-cache'); return
+            W.dc_tainted = True
         W.trace.append(f'w_flow {pkey(path)} {how} {ph}')
         if how in ('imol_pn', 'imass_pn'):
             nme = ch.choice('w.name', names); v = draw_v(ch)
@@ -670,6 +702,10 @@ def op_w_scale(ch, W, ctx):
     if how != 'scale' and not total:
         ctx.cell('avoided:total-flow-setter-on-empty'); how = 'scale'
     fv = None
+    m = member(W, path)
+    if how == 'F_vol' and m is not None and m not in W.consistent:
+        # the F_vol setter reads V through this member's memo (trigger region of finding F1)
+        ctx.cell('avoided:F_vol-setter-through-inconsistent-member'); how = 'scale'
     if how == 'F_vol':
         r = attempt(fresh(state(W, path)), 'F_vol')
         if r[0] != 'ok' or not r[1] or not np.isfinite(r[1]):
@@ -691,6 +727,7 @@ def op_w_scale(ch, W, ctx):
             k = val / sum(v * mw[n] for r in rows for n, v in r.items())
         else:
             k = val / fv
+            member_read(W, m)
         ctx.call('op.' + how, setattr, obj, how, val, region=region)
     for r in rows:
         for n in list(r): r[n] = r[n] * k
@@ -797,7 +834,7 @@ def op_phases(ch, W, ctx):
         rows = {p: {} for p in new}
         rows[h.ph.val] = dict(h.vec())
         h.kind = 'M'; h.phases = list(new); h.flow = Flow(rows); h.ph = None
-        h.fetched = set(); h.detached = set()
+        h.fetched = set(); h.detached = set(); new_dc(h)
     else:
         nonempty = [p for p in h.phases if any(h.vec(p).values())]
         to = ch.choice('phs.to', ['M', 'M', 'S.phase', 'S.phases'])
@@ -814,7 +851,7 @@ def op_phases(ch, W, ctx):
             W.trace.append(f'phases {hn} M->M {new}')
             ctx.call('op.phases', setattr, h.real, 'phases', tuple(new), region='from=M,to=M')
             rows = {p: dict(h.vec(p)) if p in h.phases else {} for p in new}
-            h.phases = list(new); h.flow = Flow(rows)
+            h.phases = list(new); h.flow = Flow(rows); new_dc(h)
             containers_replaced(h)
             cache_reset(W, h)
         else:
@@ -828,7 +865,7 @@ def op_phases(ch, W, ctx):
             for p in h.phases:
                 for n, v in h.vec(p).items(): vec[n] = vec.get(n, 0.) + v
             h.kind = 'S'; h.phases = None; h.flow = Flow({'': vec}); h.ph = Ph(ph)
-            h.fetched = set(); h.detached = set()
+            h.fetched = set(); h.detached = set(); new_dc(h)
     if hn == 'a': drop_proxies(W, ctx, 'phases')
     mutated(W, W.trace[-1])
 
@@ -893,16 +930,18 @@ def op_mix_from(ch, W, ctx):
     if recv.kind == 'S' and eb and any(st['kind'] == 'M' for _, st, _ in live):
         # a multi-phase donor turns the receiver into a MultiStream (copy_like) or leaves the phase undetermined
         ctx.cell('avoided:mix-S-from-M-with-energy-balance'); eb = False
-    if eb and len(live) >= 2 and any(k == 'self' for _, _, k in live):
-        # mix_from reads the receiver's own H after its flows were overwritten (energy balance of self-mixing; C02's subject)
-        ctx.cell('avoided:mix-eb-self'); eb = False
     if recv.kind == 'S' and eb and len({st['phases'][0] for _, st, _ in live}) > 1:
         ctx.cell('avoided:mix-eb-mixed-phases'); eb = False
     if eb and any('s' in st['phases'] and st['rows'].get('s') for _, st, _ in live):
         ctx.cell('avoided:mix-eb-solid'); eb = False
     region = f'recv={recv.kind},n={min(len(live), 2)},eb={int(eb)},multi={int(any(st["kind"] == "M" for _, st, _ in live))},' \
              f'xpkg={int(any(st["pkg"] != recv.pkg for _, st, _ in live))},self={int(any(k == "self" for _, _, k in live))}'
+    a_donor = any((k == 'self' and hn == 'a') or (k == 'other' and hn == 'b') for _, _, k in live)
+    if eb and len(live) >= 2 and a_donor and 'a' not in W.consistent:
+        # the energy balance reads a.H through a's memo (trigger region of finding F1)
+        ctx.cell('avoided:mix-eb-inconsistent-donor'); eb = False
     if not xpkg_allowed(W, ctx, recv, [st for _, st, _ in live], 'overlap'): return
+    if eb and len(live) >= 2 and a_donor: member_read(W, 'a')
     W.trace.append(f'mix_from {hn} {[k for _, _, k in donors]} eb={int(eb)}')
     Hsum = sum(fresh(st).H for _, st, _ in live) if eb and len(live) >= 2 else None
     ctx.call('op.mix_from', recv.real.mix_from, [r for r, _, _ in donors], energy_balance=eb, region=region)
@@ -953,7 +992,7 @@ def op_copy_like(ch, W, ctx):
     if recv.kind == 'S' and st['kind'] == 'M':
         recv.kind = 'M'; recv.phases = sorted(st['phases']); recv.ph = None
         recv.flow = Flow({p: dict(st['rows'][p]) for p in recv.phases})
-        recv.fetched = set(); recv.detached = set()
+        recv.fetched = set(); recv.detached = set(); new_dc(recv)
         if hn == 'a': drop_proxies(W, ctx, 'copy_like-kind-change')
     else:
         for p in recv.flow.rows: recv.flow.rows[p].clear()
@@ -1034,6 +1073,10 @@ def op_link(ch, W, ctx):
     if TP: x.tc = y.tc
     if flow: x.flow = y.flow
     if phase and x.kind == 'S': x.ph = y.ph
+    if TP and flow and (phase or x.kind == 'M') and x.dc is not y.dc:
+        # link_with shares the _data_cache dict; otherwise the dict is cleared in place, whoever else holds it
+        x.dc.owners = [o for o in x.dc.owners if o is not x]
+        x.dc = y.dc; x.dc.owners.append(x)
     if flow or TP: containers_replaced(x)
     if x.name == 'a': drop_proxies(W, ctx, 'link_with')
     mutated(W, W.trace[-1])
@@ -1046,6 +1089,7 @@ def op_unlink(ch, W, ctx):
     ctx.call('op.unlink', h.real.unlink, region=f'kind={h.kind}')
     h.flow = h.flow.copy(); h.tc = h.tc.copy()
     if h.ph is not None: h.ph = h.ph.copy()
+    # unlink clears the _data_cache dict in place: it stays shared with the former partner (finding F5)
     containers_replaced(h)
     if hn == 'a': drop_proxies(W, ctx, 'unlink')
     cache_reset(W, h)
@@ -1067,6 +1111,7 @@ def op_reset_thermo(ch, W, ctx):
     W.trace.append(f'reset_thermo {hn} {h.pkg}->{pkg}')
     ctx.call('op._reset_thermo', h.real._reset_thermo, _PK[pkg], region=f'kind={h.kind},det={int(bool(h.detached))}')
     h.pkg = pkg
+    new_dc(h)
     for r in h.flow.rows.values():
         for n in [n for n, v in r.items() if not v]: del r[n]
     if hn == 'a': drop_proxies(W, ctx, 'reset_thermo')
@@ -1084,7 +1129,7 @@ def op_copy_replace(ch, W, ctx):
     W.trace.append(f'copy a thermo={pkg}')
     h.real = ctx.call('op.copy', h.real.copy, None, None if pkg is None else _PK[pkg], region=f'kind={h.kind},xpkg={int(pkg is not None)}')
     if pkg is not None: h.pkg = pkg
-    h.flow = h.flow.copy(); h.tc = h.tc.copy()
+    h.flow = h.flow.copy(); h.tc = h.tc.copy(); new_dc(h)
     if h.ph is not None: h.ph = h.ph.copy()
     for r in h.flow.rows.values():
         for n in [n for n, v in r.items() if not v]: del r[n]
